@@ -61,9 +61,27 @@ func deleteNodeBreakerOfResource(resource string, address string) {
 	}
 }
 
+// getRuleAndNodeBreakersOfResource returns the rule of the resource and a copy of its node breakers as one
+// consistent snapshot: a request never sees the rule of one load with the breakers of another.
+func getRuleAndNodeBreakersOfResource(resource string) (*Rule, map[string]circuitbreaker.CircuitBreaker) {
+	updateMux.RLock()
+	defer updateMux.RUnlock()
+	nodes := nodeBreakers[resource]
+	ret := make(map[string]circuitbreaker.CircuitBreaker, len(nodes))
+	for address, breaker := range nodes {
+		ret[address] = breaker
+	}
+	return outlierRules[resource], ret
+}
+
 func addNodeBreakerOfResource(resource string, address string) {
+	breakerRule := getBreakerRuleOfResource(resource)
+	if breakerRule == nil {
+		// the resource has no outlier rule (any more)
+		return
+	}
 	newBreakers := circuitbreaker.BuildResourceCircuitBreaker(resource,
-		[]*circuitbreaker.Rule{getBreakerRuleOfResource(resource)}, []circuitbreaker.CircuitBreaker{})
+		[]*circuitbreaker.Rule{breakerRule}, []circuitbreaker.CircuitBreaker{})
 	if len(newBreakers) > 0 {
 		updateMux.Lock()
 		if nodeBreakers[resource] == nil {
@@ -272,13 +290,19 @@ func onRuleUpdate(rulesMap map[string]*Rule) (err error) {
 	}
 
 	currentRules = rulesMap
+	start := util.CurrentTimeNano()
+	// The rules and the node breakers built from them are published in one step. Published one after the
+	// other, a request in between saw the new rules with the breakers of the old ones - after a removal: no
+	// rule, but breakers, and the nil rule was dereferenced.
 	updateMux.Lock()
+	newBreakers := rebuildNodeBreakers(validCircuitRulesMap, nodeBreakers)
 	breakerRules = validCircuitRulesMap
 	outlierRules = validRulesMap
+	nodeBreakers = newBreakers
 	updateMux.Unlock()
+	logging.Debug("[Outlier onRuleUpdate] Time statistics(ns) for updating all circuit breakers", "timeCost", util.CurrentTimeNano()-start)
 
-	updateAllBreakers()
-	LogRuleUpdate(outlierRules)
+	LogRuleUpdate(validRulesMap)
 	return nil
 }
 
@@ -301,22 +325,13 @@ func IsValidRule(r *Rule) error {
 	return nil
 }
 
-func updateAllBreakers() {
-	start := util.CurrentTimeNano()
-	updateMux.RLock()
-	breakersClone := make(map[string]map[string]circuitbreaker.CircuitBreaker, len(nodeBreakers))
-	for resource, breakers := range nodeBreakers {
-		breakersClone[resource] = make(map[string]circuitbreaker.CircuitBreaker)
-		for address, breaker := range breakers {
-			breakersClone[resource][address] = breaker
-		}
-	}
-	updateMux.RUnlock()
-
-	newBreakers := make(map[string]map[string]circuitbreaker.CircuitBreaker, len(breakerRules))
-	for resource, rule := range breakerRules {
+// rebuildNodeBreakers builds, for every resource that has a rule in rules, the breakers of its known nodes
+// (an unchanged rule keeps the node's breaker). The caller holds updateMux.
+func rebuildNodeBreakers(rules map[string]*circuitbreaker.Rule, old map[string]map[string]circuitbreaker.CircuitBreaker) map[string]map[string]circuitbreaker.CircuitBreaker {
+	newBreakers := make(map[string]map[string]circuitbreaker.CircuitBreaker, len(rules))
+	for resource, rule := range rules {
 		newBreakers[resource] = make(map[string]circuitbreaker.CircuitBreaker)
-		for address, breaker := range breakersClone[resource] {
+		for address, breaker := range old[resource] {
 			newCbsOfRes := circuitbreaker.BuildResourceCircuitBreaker(resource,
 				[]*circuitbreaker.Rule{rule}, []circuitbreaker.CircuitBreaker{breaker})
 			if len(newCbsOfRes) > 0 {
@@ -324,12 +339,7 @@ func updateAllBreakers() {
 			}
 		}
 	}
-
-	updateMux.Lock()
-	nodeBreakers = newBreakers
-	updateMux.Unlock()
-
-	logging.Debug("[Outlier onRuleUpdate] Time statistics(ns) for updating all circuit breakers", "timeCost", util.CurrentTimeNano()-start)
+	return newBreakers
 }
 
 func LogRuleUpdate(rules map[string]*Rule) {
